@@ -20,6 +20,7 @@ PROPS = {
     note=E1_NOTE + " Assumes extents>=1.",
     technique=E1_TECH,
     e1=[dict(tu="c01_index.cpp"), dict(tu="c20_ndarray.cpp"), dict(tu="c07_outer_misc.cpp")],
+    e2=[dict(rule="R-CONSTBRANCH", anchors=True)],
     rule=E1_RULE,
     explanation="Stride/offset/indices formulas of the property statement are stated as branch-to-noreturn obligations over fully symbolic shapes and indices and discharged by LLVM -O2 (dead-branch elimination = proof for all values).",
     not_decided="round-trip identity / injectivity / enumeration order (mixed-radix theorem, not dischargeable); dynamic and bounded shape containers",
@@ -43,7 +44,7 @@ PROPS = {
     note=E1_NOTE,
     technique=E1_TECH,
     e1=[dict(tu="c03_rearrange.cpp"), dict(tu="c03b_dynamic.cpp"), dict(tu="c03c_reshape.cpp"), dict(tu="c15_args.cpp"), dict(tu="c02_capacity.cpp"), dict(tu="c03d_squeeze.cpp"), dict(tu="c03e_flip.cpp"), dict(tu="c03f_moveaxis_multi.cpp")],
-    e2=[dict(rule="R-AXISNORM"), dict(rule="R-PARAMUSE")],
+    e2=[dict(rule="R-AXISNORM"), dict(rule="R-PARAMUSE"), dict(rule="R-CONSTBRANCH", anchors=True)],
     rule=E1_RULE + "; E2: one instance per comparison of a position with an axis-valued expression in the anchor files (R-AXISNORM)",
     explanation="expected shape and source index are written from NumPy's definitions in the driver; the element law is equality of the bits loaded through the view and through the source at the expected index.",
     not_decided="flip element law (negative-step slice), reshape with -1 at view level, atleast_nd element map, heap (std::vector) shapes, permutation property as such (injectivity follows from the mixed-radix theorem, not discharged)",
@@ -54,8 +55,8 @@ PROPS = {
     claim="Proof of shape law, source-index law and element law for tile (reps of equal and greater length), repeat along an axis (scalar repeats, incl. negative axis) and roll along an axis for EVERY shift magnitude and sign, ranks 1..3, every extent and index (compile-time and run-time axes); concatenate at index level: result shape (summed extent on the axis, failure exactly when another extent differs), and for every destination index which operand and which source index is read, run-time axis incl. negative; pad (shape = source + both widths; a coordinate maps to the source exactly outside the padding, view::pad reads the source element or the fill value); tril/triu (kept side exactly col-row <= k resp. >= k, identity index, 1-d source used as every row); eye (fill exactly on the k-th diagonal); expand (axis extent s+(s-1)*spacing; multiples of spacing+1 map to coordinate/(spacing+1), everything else is a fill position; run-time axis incl. negative); take along a run-time axis incl. negative (shape; source coordinate = listed entry, a negative entry counted from the end, inside the extent); diagonal for either sign of the offset (shape incl. diagonal length, both diagonal coordinates inside their extents, other coordinates in order); sliding_window (windowed axes shrink by w-1, window extents appended, source = position + offset; scalar window on a run-time axis incl. negative, and one window per axis); sibling side-consistency of paired locals in the anchor files (R-PAIR). The remaining operations of the property are not decided.",
     note=E1_NOTE,
     technique=E1_TECH,
-    e1=[dict(tu="c04_select.cpp"), dict(tu="c03b_dynamic.cpp"), dict(tu="c04b_concat.cpp"), dict(tu="c15b_pad_matmul.cpp"), dict(tu="c02c_padview.cpp"), dict(tu="c04d_tri.cpp"), dict(tu="c04e_window.cpp"), dict(tu="c04c_take.cpp"), dict(tu="c04f_diagonal.cpp"), dict(tu="c04g_expand.cpp")],
-    e2=[dict(rule="R-PAIR"), dict(rule="R-AXISNORM"), dict(rule="R-PARAMUSE")],
+    e1=[dict(tu="c04_select.cpp"), dict(tu="c03b_dynamic.cpp"), dict(tu="c04b_concat.cpp"), dict(tu="c15b_pad_matmul.cpp"), dict(tu="c02c_padview.cpp"), dict(tu="c04d_tri.cpp"), dict(tu="c04e_window.cpp"), dict(tu="c04c_take.cpp"), dict(tu="c04f_diagonal.cpp"), dict(tu="c04g_expand.cpp"), dict(tu="c04h_cumsum.cpp")],
+    e2=[dict(rule="R-PAIR"), dict(rule="R-AXISNORM"), dict(rule="R-PARAMUSE"), dict(rule="R-CONSTBRANCH", anchors=True)],
     rule=E1_RULE,
     explanation="src = dst mod shape (tile), src_axis = dst_axis / r (repeat), src_axis = (dst_axis - shift) mod extent (roll), written from the NumPy definitions.",
     not_decided="compress, take over the flattened array (axis None), stack family, split, where, generators, resize (float round trip), expand with several axes, tri, per-element repeats, repeat/roll without axis; view-level element laws of tril/triu/sliding_window (index level only)",
@@ -67,7 +68,7 @@ PROPS = {
     note=E1_NOTE,
     technique=E1_TECH,
     e1=[dict(tu="c06_broadcast.cpp"), dict(tu="c06b_broadcast_to.cpp"), dict(tu="c07_outer_misc.cpp")],
-    e2=[dict(rule="R-PARAMUSE")],
+    e2=[dict(rule="R-PARAMUSE"), dict(rule="R-CONSTBRANCH", anchors=True), dict(rule="R-MAYBE.broadcast")],
     rule=E1_RULE,
     explanation="soundness and completeness are stated per first incompatible aligned axis (nested case split with the call inside each case).",
     not_decided="broadcast_to/broadcast_arrays element law, associativity beyond the fold structure, dynamic/clipped containers",
